@@ -89,6 +89,10 @@ func matrix(c *hx.Ctx) []imgOpts {
 			if isz == 128 {
 				o.feats = append(o.feats, "^extra_isize")
 			}
+			if contains(o.feats, "^sparse_super") && !contains(o.feats, "^resize_inode") {
+				// mke2fs: "reserved online resize blocks not supported on non-sparse filesystem"
+				o.feats = append(o.feats, "^resize_inode")
+			}
 			o.sizeKB = (16 + r.Intn(48)) * 1024
 			o.bigDir = 50 + r.Intn(600)
 			o.deepFrag = r.Chance(40)
